@@ -849,6 +849,12 @@ func c17Emit(c *Ctx, kind string, ts []gTok, m gMode, inputs []string, imode int
 		c.Add(&Case{Desc: desc, Direct: "panic: " + impl.crash, Class: m.Name + "/panic"})
 		return
 	}
+	var se *syntax.Error
+	if impl.err != nil && errors.As(impl.err, &se) && se.Code == syntax.ErrTooManyAlternates {
+		// the number of '|' directly inside (?( ) ... ) is not modelled (damaged nesting can put a second one there)
+		c.Hist(m.Name + "/unmodelled-error")
+		return
+	}
 	in := c17ModelIn(m, ts, numKeys, nameKeys, dollarKeys, imode, impl.items)
 	nontrivial := impl.err == nil && (hasTag(ts, tNamed) || hasTag(ts, tNumbered))
 	c.Add(&Case{Desc: desc + " [Parse/Write/Regexp maps, lookups, $-references, node numbers]", ModelLeg: 1701, ModelIn: in, ImplOut: impl.static,
